@@ -254,8 +254,9 @@ def r09_5_origin(chk):
     from ..terms import (SELF, A, K, NONE, contains, is_call, call_arg, call_name, pp, attr_stores, raise_conditions,
                          subterms, first_of as _first_of)
     asum = chk.summary(add)
-    octor = [c for c in asum.all_calls() if call_name(c) == "OriginItem" and call_arg(c, kw="file_id") is not None]
-    fid = call_arg(octor[0], kw="file_id") if octor else None
+    from ..terms import ctor_calls as _cc, bound_arg as _ba
+    octor = [c for c in _cc(asum, ix.get_class("OriginItem")) if _ba(chk.terms, asum, c, "file_id") is not None]
+    fid = _ba(chk.terms, asum, octor[0], "file_id") if octor else None
     header_ids = (A(SELF, "file_header", "header_id"), A(SELF, "file_header_item", "header_id"))
     chk.require(fid in header_ids, "R09.5", "file-id-from-header",
                 f"add_origin passes file_id={pp(fid) if fid else None}", add.where)
